@@ -373,6 +373,41 @@ let run_frompb (enums : string) (fields : string) (record : string) : string =
   | None -> "NONE"
   | Some m -> Stdlib.String.concat ";" (Stdlib.List.map (fun (n, v) -> string_of_coq n ^ "=" ^ show_value v) m)
 
+(* ---- C15: command IR ---- *)
+let rec parse_cval (s : string) : CommandIR.cval =
+  let n = Stdlib.String.length s in
+  let rest = Stdlib.String.sub s 1 (n - 1) in
+  match Stdlib.String.get s 0 with
+  | 'B' -> CommandIR.VB (rest = "1")
+  | 'I' -> CommandIR.VZ (z_of_string rest)
+  | 'F' -> (match Stdlib.String.split_on_char ':' rest with
+            | [sg; m; e] -> CommandIR.VF (sg = "1", z_of_string m, z_of_string e) | _ -> failwith "float")
+  | 'S' -> CommandIR.VS (bytes_of_hex (if rest = "" then "-" else rest))
+  | 'E' -> (match Stdlib.String.split_on_char '.' rest with [e; m] -> CommandIR.VE (coq_string_of e, coq_string_of m) | _ -> failwith "enum")
+  | 'T' -> CommandIR.VT (Stdlib.List.map parse_cval (Stdlib.String.split_on_char '|' rest))
+  | _ -> failwith ("cval " ^ s)
+let rec show_cval = function
+  | CommandIR.VB b -> "B" ^ b01 b
+  | CommandIR.VZ z -> "I" ^ string_of_z z
+  | CommandIR.VF (sg, m, e) -> Printf.sprintf "F%s:%s:%s" (b01 sg) (string_of_z m) (string_of_z e)
+  | CommandIR.VS b -> "S" ^ (let h = hex_of_bytes b in if h = "-" then "" else h)
+  | CommandIR.VE (e, m) -> "E" ^ string_of_coq e ^ "." ^ string_of_coq m
+  | CommandIR.VT l -> "T" ^ Stdlib.String.concat "|" (Stdlib.List.map show_cval l)
+let run_cmd (name : string) (major : string) (minor : string) (args : string list) : string =
+  match Stdlib.List.find_opt (fun c -> string_of_coq c.CommandIR.c_name = name) GenCommands.commands with
+  | None -> "?no-such-command"
+  | Some c ->
+    let tbl = Stdlib.List.map (fun a -> match Stdlib.String.index_opt a '=' with
+        | Some i -> (Stdlib.String.sub a 0 i, parse_cval (Stdlib.String.sub a (i + 1) (Stdlib.String.length a - i - 1)))
+        | None -> failwith "arg") args in
+    let ev (p : String.string) = Stdlib.List.assoc_opt (string_of_coq p) tbl in
+    let m = CommandIR.exec c ev (z_of_string major, z_of_string minor) in
+    let parts = Stdlib.List.filter_map (fun f -> match CommandIR.get f m with
+        | Some (Some v) -> Some (string_of_coq f ^ "=" ^ show_cval v)
+        | Some None -> Some (string_of_coq f ^ "=NONE")
+        | None -> None) c.CommandIR.c_fields in
+    string_of_coq c.CommandIR.c_msg ^ " " ^ (if parts = [] then "-" else Stdlib.String.concat ";" parts)
+
 let handle (line : string) : string =
   match words line with
   | "venc" :: v :: [] -> hex_of_bytes (Varint.enc (n_of_hex v))
@@ -405,6 +440,7 @@ let handle (line : string) : string =
      | None -> "none"
      | Some l -> if l = [] then "-" else Stdlib.String.concat "," (Stdlib.List.map (fun (t, p) -> hex_of_n t ^ ":" ^ hex_of_bytes p) l))
   | "client" :: nz :: ex :: ka :: scr :: labels -> run_client (nz = "1") (ex = "1") (int_of_string ka) scr labels
+  | "cmd" :: name :: major :: minor :: args -> run_cmd name major minor args
   | ["fixf"; sg; m; e] ->
     let ((s1, m1), e1) = FloatFix.fix_float (sg = "1") (z_of_string m) (z_of_string e) in
     Printf.sprintf "%s %s %s" (b01 s1) (string_of_z m1) (string_of_z e1)
